@@ -434,6 +434,60 @@ pub open spec fn free_in(f: SymbolicBDD, v: Sym) -> bool
     }
 }
 
+/// like free_in, but an (always undefined, A17) `{name}` reference mentions no variable: v has a free occurrence AS A VARIABLE LEAF.
+/// This is what the evaluated diagram can depend on; free_in additionally answers true below a reference, as var_is_free does.
+pub open spec fn fv(f: SymbolicBDD, v: Sym) -> bool
+    decreases f
+{
+    match f {
+        SymbolicBDD::Var(w) => w == v,
+        SymbolicBDD::False | SymbolicBDD::True | SymbolicBDD::Subtree(_) => false,
+        // an undefined `{name}` reference is treated as possibly mentioning any variable (no definition is ever
+        // installed: assumption A17)
+        SymbolicBDD::Reference(_) => false,
+        SymbolicBDD::Not(b) => fv(*b, v),
+        SymbolicBDD::Quantifier(_, vs, b) => !sym_in(vs@, v) && fv(*b, v),
+        SymbolicBDD::CountableConst(_, bs, _) => exists|i: int| 0 <= i < bs@.len() && fv(#[trigger] bs@[i], v),
+        SymbolicBDD::CountableVariable(_, l, r) => (exists|i: int| 0 <= i < l@.len() && fv(#[trigger] l@[i], v))
+            || (exists|i: int| 0 <= i < r@.len() && fv(#[trigger] r@[i], v)),
+        SymbolicBDD::FixedPoint(x, _, t) => x != v && fv(*t, v),
+        SymbolicBDD::Ite(c, t, e) => fv(*c, v) || fv(*t, v) || fv(*e, v),
+        SymbolicBDD::BinaryOp(_, l, r) => fv(*l, v) || fv(*r, v),
+    }
+}
+
+pub proof fn lemma_fv_free(f: SymbolicBDD, v: Sym)
+    requires fv(f, v)
+    ensures free_in(f, v)
+    decreases f
+{
+    match f {
+        SymbolicBDD::Not(b) => { lemma_fv_free(*b, v); }
+        SymbolicBDD::Quantifier(_, vs, b) => { lemma_fv_free(*b, v); }
+        SymbolicBDD::CountableConst(_, bs, _) => {
+            let i = choose|i: int| 0 <= i < bs@.len() && fv(#[trigger] bs@[i], v);
+            lemma_fv_free(bs@[i], v);
+        }
+        SymbolicBDD::CountableVariable(_, l, r) => {
+            if exists|i: int| 0 <= i < l@.len() && fv(#[trigger] l@[i], v) {
+                let i = choose|i: int| 0 <= i < l@.len() && fv(#[trigger] l@[i], v);
+                lemma_fv_free(l@[i], v);
+            } else {
+                let i = choose|i: int| 0 <= i < r@.len() && fv(#[trigger] r@[i], v);
+                lemma_fv_free(r@[i], v);
+            }
+        }
+        SymbolicBDD::FixedPoint(x, _, t) => { lemma_fv_free(*t, v); }
+        SymbolicBDD::Ite(c, t, e) => {
+            if fv(*c, v) { lemma_fv_free(*c, v); } else if fv(*t, v) { lemma_fv_free(*t, v); } else { lemma_fv_free(*e, v); }
+        }
+        SymbolicBDD::BinaryOp(_, l, r) => {
+            if fv(*l, v) { lemma_fv_free(*l, v); } else { lemma_fv_free(*r, v); }
+        }
+        _ => {}
+    }
+}
+
 /// g is f with every free occurrence of the name x replaced by rep; an inner quantifier list containing x
 /// or an inner fixed point on x shadows it (C06: "X is lexically scoped")
 pub open spec fn is_subst(f: SymbolicBDD, x: Sym, rep: SymbolicBDD, g: SymbolicBDD) -> bool
@@ -1462,7 +1516,7 @@ pub proof fn lemma_fp_iterates_indep(xx: Sym, i: bool, t: SymbolicBDD, rho: Rho,
 
 /// sem ignores the value of a variable that is not free in f (and that no diagram in the environment depends on)
 pub proof fn lemma_sem_indep(f: SymbolicBDD, v: Sym, rho: Rho)
-    requires rho.dom().contains(v) || !free_in(f, v), rho_indep(rho, v), subtrees_ok(f, true)
+    requires rho.dom().contains(v) || !fv(f, v), rho_indep(rho, v), subtrees_ok(f, true)
     ensures sem_indep(f, v, rho)
     decreases f
 {
@@ -1605,6 +1659,15 @@ pub proof fn lemma_indep_not_occurs(r: BDD, v: Sym, lo: int)
 /// C09: the diagram the evaluator returns for f tests only variables that are free in f
 pub proof fn lemma_result_only_free(f: SymbolicBDD, r: BDD, v: Sym)
     requires subtrees_ok(f, true), !free_in(f, v), robdd(r, 0), forall|a: Asg| #[trigger] eval(r, a) == sem(f, a, Map::<Sym, BDD>::empty())
+    ensures !occurs(r, v)
+{
+    if fv(f, v) { lemma_fv_free(f, v); }
+    lemma_result_only_fv(f, r, v);
+}
+
+/// the diagram the evaluator returns for f tests only variables that occur as a free variable leaf in f
+pub proof fn lemma_result_only_fv(f: SymbolicBDD, r: BDD, v: Sym)
+    requires subtrees_ok(f, true), !fv(f, v), robdd(r, 0), forall|a: Asg| #[trigger] eval(r, a) == sem(f, a, Map::<Sym, BDD>::empty())
     ensures !occurs(r, v)
 {
     let e = Map::<Sym, BDD>::empty();
@@ -2263,11 +2326,9 @@ pub open spec fn well_built(p: ParsedFormula) -> bool {
     &&& subtrees_ok(p.bdd, true) && subtrees_ok(p.bdd, false)
 }
 
-/// [A19, assumed in main()] the variables the formula's diagram tests are in the formula's variable list: the tree's
-/// variable leaves are Var tokens and extract_vars returns every Var token (A9); the link tokens -> tree -> diagram is a
-/// property of the grammar and of the evaluator that is not proved here
-pub open spec fn vars_cover_diagram(p: ParsedFormula) -> bool {
-    forall|r: BDD, v: Sym| denotes(r, p) && #[trigger] occurs(r, v) ==> p.vars@.contains(v)
+/// every free variable leaf of the formula is in its variable list (postcondition `names` of the constructors)
+pub open spec fn vars_cover(p: ParsedFormula) -> bool {
+    forall|v: Sym| #[trigger] fv(p.bdd, v) ==> p.vars@.contains(v)
 }
 
 /// the printers' preconditions for any diagram over the formula's free variables and an all-Any row of the right length
@@ -2315,4 +2376,331 @@ pub proof fn lemma_table_of_formula(out: Rows, r: BDD, p: ParsedFormula, filter:
         implies sem(p.bdd, of_cols(p, ca), Map::<Sym, BDD>::empty()) == (out[i].1 is True) by {
         assert(eval(r, of_cols(p, ca)) == sem(p.bdd, of_cols(p, ca), Map::<Sym, BDD>::empty()));
     }
+}
+
+// ---- every free variable leaf of the parsed tree is a Var token of the input (grammar property; removes assumption A19)
+
+pub open spec fn has_var(ts: Toks, v: Sym) -> bool {
+    exists|i: int| 0 <= i < ts.len() && #[trigger] ts[i] == SymbolicBDDToken::Var(v)
+}
+
+/// r is what remains of ts after some tokens were consumed
+pub open spec fn is_suffix(r: Toks, ts: Toks) -> bool {
+    exists|k: int| 0 <= k <= ts.len() && #[trigger] ts.skip(k) == r
+}
+
+pub proof fn lemma_suffix_skip(ts: Toks, k: int)
+    requires 0 <= k <= ts.len()
+    ensures is_suffix(ts.skip(k), ts)
+{
+    assert(ts.skip(k) == ts.skip(k));
+}
+
+pub proof fn lemma_suffix_trans(a: Toks, b: Toks, c: Toks)
+    requires is_suffix(a, b), is_suffix(b, c)
+    ensures is_suffix(a, c)
+{
+    let k1 = choose|k: int| 0 <= k <= b.len() && #[trigger] b.skip(k) == a;
+    let k2 = choose|k: int| 0 <= k <= c.len() && #[trigger] c.skip(k) == b;
+    assert(c.skip(k2 + k1) =~= c.skip(k2).skip(k1));
+    assert(c.skip(k2 + k1) == a);
+}
+
+pub proof fn lemma_suffix_var(r: Toks, ts: Toks, v: Sym)
+    requires is_suffix(r, ts), has_var(r, v)
+    ensures has_var(ts, v)
+{
+    let k = choose|k: int| 0 <= k <= ts.len() && #[trigger] ts.skip(k) == r;
+    let i = choose|i: int| 0 <= i < r.len() && #[trigger] r[i] == SymbolicBDDToken::Var(v);
+    assert(ts[k + i] == r[i]);
+}
+
+pub proof fn lemma_g_vars(ts: Toks, acc: Seq<Sym>)
+    requires p_vars(ts, acc) is Some
+    ensures is_suffix(p_vars(ts, acc)->Some_0.1, ts)
+    decreases ts.len()
+{
+    if head_is(ts, SymbolicBDDToken::Hash) {
+        lemma_suffix_skip(ts, 0);
+        assert(ts.skip(0) =~= ts);
+    } else {
+        let r = ts.skip(1);
+        lemma_suffix_skip(ts, 1);
+        if head_is(r, SymbolicBDDToken::Comma) {
+            lemma_g_vars(r.skip(1), acc.push(ts[0]->Var_0));
+            lemma_suffix_skip(r, 1);
+            lemma_suffix_trans(r.skip(1), r, ts);
+            lemma_suffix_trans(p_vars(ts, acc)->Some_0.1, r.skip(1), ts);
+        }
+    }
+}
+
+/// G for each nonterminal: the remaining tokens are a suffix, and a free variable leaf of a tree that `repr`esents the
+/// parsed Ast is a Var token of the input
+pub proof fn lemma_g_simple(ts: Toks, f: SymbolicBDD, v: Sym)
+    requires p_simple(ts) is Some
+    ensures is_suffix(p_simple(ts)->Some_0.1, ts), repr(f, p_simple(ts)->Some_0.0) && fv(f, v) ==> has_var(ts, v)
+    decreases ts.len(), 2nat
+{
+    match ts[0] {
+        SymbolicBDDToken::OpenParen => { lemma_g_paren(ts, f, v); }
+        SymbolicBDDToken::OpenSquare => { lemma_g_countable(ts, f, v); }
+        SymbolicBDDToken::False | SymbolicBDDToken::True | SymbolicBDDToken::Reference(_) => { lemma_suffix_skip(ts, 1); }
+        SymbolicBDDToken::Var(w) => {
+            lemma_suffix_skip(ts, 1);
+            if repr(f, p_simple(ts)->Some_0.0) && fv(f, v) {
+                assert(ts[0] == SymbolicBDDToken::Var(v));
+            }
+        }
+        SymbolicBDDToken::Not => { lemma_g_negation(ts, f, v); }
+        SymbolicBDDToken::Exists => { lemma_g_quant(QuantifierType::Exists, ts, f, v); }
+        SymbolicBDDToken::Forall => { lemma_g_quant(QuantifierType::Forall, ts, f, v); }
+        SymbolicBDDToken::GFP => { lemma_g_fixed(ts, true, f, v); }
+        SymbolicBDDToken::LFP => { lemma_g_fixed(ts, false, f, v); }
+        SymbolicBDDToken::If => { lemma_g_ite(ts, f, v); }
+        _ => {}
+    }
+}
+
+pub proof fn lemma_g_sub(ts: Toks, f: SymbolicBDD, v: Sym)
+    requires p_sub(ts) is Some
+    ensures is_suffix(p_sub(ts)->Some_0.1, ts), repr(f, p_sub(ts)->Some_0.0) && fv(f, v) ==> has_var(ts, v)
+    decreases ts.len(), 3nat
+{
+    let (left, r) = p_simple(ts)->Some_0;
+    if r.len() > 0 && binop_of(r[0]) is Some {
+        let (right, r2) = p_sub(r.skip(1))->Some_0;
+        lemma_g_simple(ts, f, v);
+        lemma_g_sub(r.skip(1), f, v);
+        lemma_suffix_skip(r, 1);
+        lemma_suffix_trans(r.skip(1), r, ts);
+        lemma_suffix_trans(r2, r.skip(1), ts);
+        if repr(f, p_sub(ts)->Some_0.0) && fv(f, v) {
+            let fl = *f->BinaryOp_1; let fr = *f->BinaryOp_2;
+            if fv(fl, v) {
+                lemma_g_simple(ts, fl, v);
+            } else {
+                lemma_g_sub(r.skip(1), fr, v);
+                lemma_suffix_var(r.skip(1), ts, v);
+            }
+        }
+    } else {
+        lemma_g_simple(ts, f, v);
+    }
+}
+
+pub proof fn lemma_g_paren(ts: Toks, f: SymbolicBDD, v: Sym)
+    requires p_paren(ts) is Some
+    ensures is_suffix(p_paren(ts)->Some_0.1, ts), repr(f, p_paren(ts)->Some_0.0) && fv(f, v) ==> has_var(ts, v)
+    decreases ts.len(), 1nat
+{
+    let (g, r) = p_sub(ts.skip(1))->Some_0;
+    lemma_g_sub(ts.skip(1), f, v);
+    lemma_suffix_skip(ts, 1);
+    lemma_suffix_skip(r, 1);
+    lemma_suffix_trans(r, ts.skip(1), ts);
+    lemma_suffix_trans(r.skip(1), r, ts);
+    if repr(f, g) && fv(f, v) { lemma_suffix_var(ts.skip(1), ts, v); }
+}
+
+pub proof fn lemma_g_negation(ts: Toks, f: SymbolicBDD, v: Sym)
+    requires p_negation(ts) is Some
+    ensures is_suffix(p_negation(ts)->Some_0.1, ts), repr(f, p_negation(ts)->Some_0.0) && fv(f, v) ==> has_var(ts, v)
+    decreases ts.len(), 1nat
+{
+    let (g, r) = p_simple(ts.skip(1))->Some_0;
+    lemma_suffix_skip(ts, 1);
+    lemma_g_simple(ts.skip(1), f, v);
+    lemma_suffix_trans(r, ts.skip(1), ts);
+    if repr(f, p_negation(ts)->Some_0.0) && fv(f, v) {
+        let b = *f->Not_0;
+        lemma_g_simple(ts.skip(1), b, v);
+        lemma_suffix_var(ts.skip(1), ts, v);
+    }
+}
+
+pub proof fn lemma_g_ite(ts: Toks, f: SymbolicBDD, v: Sym)
+    requires p_ite(ts) is Some
+    ensures is_suffix(p_ite(ts)->Some_0.1, ts), repr(f, p_ite(ts)->Some_0.0) && fv(f, v) ==> has_var(ts, v)
+    decreases ts.len(), 1nat
+{
+    let t1 = ts.skip(1);
+    let (c, r1) = p_sub(t1)->Some_0;
+    let (t, r2) = p_sub(r1.skip(1))->Some_0;
+    let (e, r3) = p_sub(r2.skip(1))->Some_0;
+    lemma_suffix_skip(ts, 1);
+    lemma_g_sub(t1, f, v);
+    lemma_suffix_trans(r1, t1, ts);
+    lemma_suffix_skip(r1, 1);
+    lemma_suffix_trans(r1.skip(1), r1, ts);
+    lemma_g_sub(r1.skip(1), f, v);
+    lemma_suffix_trans(r2, r1.skip(1), ts);
+    lemma_suffix_skip(r2, 1);
+    lemma_suffix_trans(r2.skip(1), r2, ts);
+    lemma_g_sub(r2.skip(1), f, v);
+    lemma_suffix_trans(r3, r2.skip(1), ts);
+    if repr(f, p_ite(ts)->Some_0.0) && fv(f, v) {
+        let fc = *f->Ite_0; let ft = *f->Ite_1; let fe = *f->Ite_2;
+        if fv(fc, v) { lemma_g_sub(t1, fc, v); lemma_suffix_var(t1, ts, v); }
+        else if fv(ft, v) { lemma_g_sub(r1.skip(1), ft, v); lemma_suffix_var(r1.skip(1), ts, v); }
+        else { lemma_g_sub(r2.skip(1), fe, v); lemma_suffix_var(r2.skip(1), ts, v); }
+    }
+}
+
+pub proof fn lemma_g_quant(q: QuantifierType, ts: Toks, f: SymbolicBDD, v: Sym)
+    requires p_quant(q, ts) is Some
+    ensures is_suffix(p_quant(q, ts)->Some_0.1, ts), repr(f, p_quant(q, ts)->Some_0.0) && fv(f, v) ==> has_var(ts, v)
+    decreases ts.len(), 1nat
+{
+    let t1 = ts.skip(1);
+    let (vs, r) = p_vars(t1, Seq::empty())->Some_0;
+    let (g, r2) = p_sub(r.skip(1))->Some_0;
+    lemma_suffix_skip(ts, 1);
+    lemma_g_vars(t1, Seq::empty());
+    lemma_suffix_trans(r, t1, ts);
+    lemma_suffix_skip(r, 1);
+    lemma_suffix_trans(r.skip(1), r, ts);
+    lemma_g_sub(r.skip(1), f, v);
+    lemma_suffix_trans(r2, r.skip(1), ts);
+    if repr(f, p_quant(q, ts)->Some_0.0) && fv(f, v) {
+        let b = *f->Quantifier_2;
+        lemma_g_sub(r.skip(1), b, v);
+        lemma_suffix_var(r.skip(1), ts, v);
+    }
+}
+
+pub proof fn lemma_g_fixed(ts: Toks, init: bool, f: SymbolicBDD, v: Sym)
+    requires p_fixed(ts, init) is Some
+    ensures is_suffix(p_fixed(ts, init)->Some_0.1, ts), repr(f, p_fixed(ts, init)->Some_0.0) && fv(f, v) ==> has_var(ts, v)
+    decreases ts.len(), 1nat
+{
+    let (g, r) = p_sub(ts.skip(3))->Some_0;
+    lemma_suffix_skip(ts, 3);
+    lemma_g_sub(ts.skip(3), f, v);
+    lemma_suffix_trans(r, ts.skip(3), ts);
+    if repr(f, p_fixed(ts, init)->Some_0.0) && fv(f, v) {
+        let t = *f->FixedPoint_2;
+        lemma_g_sub(ts.skip(3), t, v);
+        lemma_suffix_var(ts.skip(3), ts, v);
+    }
+}
+
+/// list items: the first acc.len() results are acc itself; every later one was parsed from ts
+pub proof fn lemma_g_items(ts: Toks, acc: Seq<Ast>, j: int, f: SymbolicBDD, v: Sym)
+    requires p_items(ts, acc) is Some
+    ensures
+        is_suffix(p_items(ts, acc)->Some_0.1, ts),
+        p_items(ts, acc)->Some_0.0.len() >= acc.len(),
+        acc.len() <= j < p_items(ts, acc)->Some_0.0.len() && repr(f, p_items(ts, acc)->Some_0.0[j]) && fv(f, v) ==> has_var(ts, v),
+    decreases ts.len(), 4nat
+{
+    if head_is(ts, SymbolicBDDToken::CloseSquare) {
+        lemma_suffix_skip(ts, 0);
+        assert(ts.skip(0) =~= ts);
+    } else {
+        let (g, r) = p_sub(ts)->Some_0;
+        lemma_g_sub(ts, f, v);
+        if head_is(r, SymbolicBDDToken::Comma) {
+            let acc2 = acc.push(g);
+            lemma_g_items(r.skip(1), acc2, j, f, v);
+            lemma_g_items_prefix(r.skip(1), acc2, acc.len() as int);
+            lemma_suffix_skip(r, 1);
+            lemma_suffix_trans(r.skip(1), r, ts);
+            lemma_suffix_trans(p_items(ts, acc)->Some_0.1, r.skip(1), ts);
+            let res = p_items(ts, acc)->Some_0.0;
+            if acc.len() <= j < res.len() && repr(f, res[j]) && fv(f, v) {
+                if j == acc.len() {
+                    assert(res[j] == g);
+                } else {
+                    lemma_suffix_var(r.skip(1), ts, v);
+                }
+            }
+        } else {
+            let res = acc.push(g);
+            if acc.len() <= j < res.len() && repr(f, res[j]) && fv(f, v) {
+                assert(res[j] == g);
+            }
+        }
+    }
+}
+
+/// p_items keeps its accumulator as a prefix of the result
+pub proof fn lemma_g_items_prefix(ts: Toks, acc: Seq<Ast>, k: int)
+    requires p_items(ts, acc) is Some, 0 <= k < acc.len()
+    ensures p_items(ts, acc)->Some_0.0.len() >= acc.len(), p_items(ts, acc)->Some_0.0[k] == acc[k]
+    decreases ts.len()
+{
+    if head_is(ts, SymbolicBDDToken::CloseSquare) {
+    } else {
+        let (g, r) = p_sub(ts)->Some_0;
+        if head_is(r, SymbolicBDDToken::Comma) {
+            lemma_g_items_prefix(r.skip(1), acc.push(g), k);
+        }
+    }
+}
+
+pub proof fn lemma_g_list(ts: Toks, j: int, f: SymbolicBDD, v: Sym)
+    requires p_list(ts) is Some
+    ensures
+        is_suffix(p_list(ts)->Some_0.1, ts),
+        0 <= j < p_list(ts)->Some_0.0.len() && repr(f, p_list(ts)->Some_0.0[j]) && fv(f, v) ==> has_var(ts, v),
+    decreases ts.len(), 0nat
+{
+    let (fs, r) = p_items(ts.skip(1), Seq::empty())->Some_0;
+    lemma_suffix_skip(ts, 1);
+    lemma_g_items(ts.skip(1), Seq::empty(), j, f, v);
+    lemma_suffix_trans(r, ts.skip(1), ts);
+    lemma_suffix_skip(r, 1);
+    lemma_suffix_trans(r.skip(1), r, ts);
+    if 0 <= j < fs.len() && repr(f, fs[j]) && fv(f, v) { lemma_suffix_var(ts.skip(1), ts, v); }
+}
+
+pub proof fn lemma_g_countable(ts: Toks, f: SymbolicBDD, v: Sym)
+    requires p_countable(ts) is Some
+    ensures is_suffix(p_countable(ts)->Some_0.1, ts), repr(f, p_countable(ts)->Some_0.0) && fv(f, v) ==> has_var(ts, v)
+    decreases ts.len(), 1nat
+{
+    let (l, r) = p_list(ts)->Some_0;
+    let r1 = r.skip(1);
+    lemma_g_list(ts, 0, f, v);
+    lemma_suffix_skip(r, 1);
+    lemma_suffix_trans(r1, r, ts);
+    if head_is(r1, SymbolicBDDToken::OpenSquare) {
+        let (rl, r2) = p_list(r1)->Some_0;
+        lemma_g_list(r1, 0, f, v);
+        lemma_suffix_trans(r2, r1, ts);
+        if repr(f, p_countable(ts)->Some_0.0) && fv(f, v) {
+            let fl = f->CountableVariable_1; let fr = f->CountableVariable_2;
+            if exists|i: int| 0 <= i < fl@.len() && fv(#[trigger] fl@[i], v) {
+                let i = choose|i: int| 0 <= i < fl@.len() && fv(#[trigger] fl@[i], v);
+                assert(repr_list(fl@, l));
+                assert(repr(fl@[i], l[i]));
+                lemma_g_list(ts, i, fl@[i], v);
+            } else {
+                let i = choose|i: int| 0 <= i < fr@.len() && fv(#[trigger] fr@[i], v);
+                assert(repr_list(fr@, rl));
+                assert(repr(fr@[i], rl[i]));
+                lemma_g_list(r1, i, fr@[i], v);
+                lemma_suffix_var(r1, ts, v);
+            }
+        }
+    } else {
+        lemma_suffix_skip(r1, 1);
+        lemma_suffix_trans(r1.skip(1), r1, ts);
+        if repr(f, p_countable(ts)->Some_0.0) && fv(f, v) {
+            let bs = f->CountableConst_1;
+            let i = choose|i: int| 0 <= i < bs@.len() && fv(#[trigger] bs@[i], v);
+            assert(repr_list(bs@, l));
+            assert(repr(bs@[i], l[i]));
+            lemma_g_list(ts, i, bs@[i], v);
+        }
+    }
+}
+
+/// G: the tree the grammar assigns to a token sequence has no free variable leaf that is not a token
+pub proof fn lemma_tree_vars_are_tokens(ts: Toks, f: SymbolicBDD, v: Sym)
+    requires p_formula(ts) is Some, repr(f, p_formula(ts)->Some_0), fv(f, v)
+    ensures has_var(ts, v)
+{
+    lemma_g_sub(ts, f, v);
 }
